@@ -212,7 +212,7 @@ func verifC19_SyncPrefix() {
 	history[0] = vSnapshot(prefix)
 	nh := 1
 
-	s := &syncer{cluster: vCluster(), pullInterval: time.Second, done: make(chan struct{})}
+	s := &syncer{cluster: vCluster(), client: &clientv3.Client{KV: vEtcdKV{}}, pullInterval: time.Second, done: make(chan struct{})}
 	verifInitMaps(s) // maps a bypassed constructor would have made
 	ch, _ := s.SyncPrefix(prefix)
 
@@ -331,7 +331,7 @@ func verifC19_SyncKey() {
 	vWatchCh = make(chan clientv3.WatchResponse, 8)
 	vTickCh = make(chan time.Time, 8)
 	vPullFails, vWatchCount = false, 0
-	s := &syncer{cluster: vCluster(), pullInterval: time.Second, done: make(chan struct{})}
+	s := &syncer{cluster: vCluster(), client: &clientv3.Client{KV: vEtcdKV{}}, pullInterval: time.Second, done: make(chan struct{})}
 	verifInitMaps(s) // maps a bypassed constructor would have made
 	ch, _ := s.Sync(key)
 	verifQuiesce()
@@ -443,7 +443,7 @@ func verifC19_SlowConsumer() {
 	vWatchCh = make(chan clientv3.WatchResponse, 32)
 	vTickCh = make(chan time.Time, 8)
 	vPullFails, vWatchCount = false, 0
-	s := &syncer{cluster: vCluster(), pullInterval: time.Second, done: make(chan struct{})}
+	s := &syncer{cluster: vCluster(), client: &clientv3.Client{KV: vEtcdKV{}}, pullInterval: time.Second, done: make(chan struct{})}
 	verifInitMaps(s) // maps a bypassed constructor would have made
 	ch, _ := s.SyncPrefix(prefix)
 	// more writes than the channel capacity; the consumer reads a few snapshots, then stalls
